@@ -202,6 +202,8 @@ def zone(x, y, ft):
             return "0"
         if a == 1:
             return "one"
+        if abs(a - 2.0) <= 2.0 ** -6:
+            return "near2"
         if a < float(fi.smallest_normal):
             return "sub"
         if a < 1e-3:
@@ -394,6 +396,48 @@ def w_rate(task):
     return part
 
 
+def unit_modulus_points(ft, seed, m):
+    """points whose modulus is within a few ULP of 1 (and their translates by -1): x on a binade x mantissa lattice in
+    (2^-12, 1], y = RN(sqrt(1 - x^2)) + k ULP for k in -2..2, all sign combinations and both component orders."""
+    f = FMT[np.dtype(ft).name]
+    w = f["p"] - 1
+    pats = lattice.mantissa_patterns(ft, m, seed)
+    xs = []
+    for e in range(-12, 0):
+        for pm in pats:
+            xs.append((1.0 + pm / float(1 << w)) * 2.0 ** e)
+    xs += [0.6, 0.8, 0.28, 0.96, 5.0 / 13.0, 12.0 / 13.0, 1.0, 2.0 ** -0.5]
+    xs = np.unique(np.array(xs, dtype=ft))
+    xl = xs.astype(np.longdouble)
+    y0 = np.sqrt(np.maximum(np.longdouble(1) - xl * xl, 0)).astype(ft)
+    X, Y = [], []
+    o = ordinal(y0)
+    for k in range(-2, 3):
+        yk = from_ordinal(o + k, ft)
+        for sx in (1, -1):
+            for sy in (1, -1):
+                X += [sx * xs, sy * yk]
+                Y += [sy * yk, sx * xs]
+    X, Y = np.concatenate(X).astype(ft), np.concatenate(Y).astype(ft)
+    # translates: 1 + z has modulus ~ 1
+    X2 = np.concatenate([X, (X.astype(np.longdouble) - 1).astype(ft)])
+    Y2 = np.concatenate([Y, Y])
+    return X2, Y2
+
+
+def w_unit(task):
+    fa = setup_repo_import()
+    part = new_part()
+    cname = task["dtype"]
+    ct, ft, _ = CT[cname]
+    X, Y = unit_modulus_points(ft, task["seed"], task["mantissas"])
+    sl = slice(task["lo"], None, task["stride"])
+    for fname in task["funcs"]:
+        judge_points(part, fa, fname, cname, X[sl], Y[sl])
+    part["samples"].append({"unit_modulus_lattice": cname, "points": int(len(X[sl])), "x0": float(X[sl][0]).hex(), "y0": float(Y[sl][0]).hex()})
+    return part
+
+
 def w_conformance(task):
     """replay a sub-lattice through the emitted NumPy code: bit identity with mc.interp."""
     fa = setup_repo_import()
@@ -472,6 +516,8 @@ def run(run):
         for lo in range(0, ng, 10):
             rtasks.append(dict(kind="binades", dtype=cname, mantissas=m, seed=run.seed, lo=lo, hi=lo + 10, funcs=CFUNCS))
     run.map(MOD, "w_rate", rtasks)
+    utasks = [dict(dtype=cname, seed=run.seed, mantissas=16 if thorough else 6, lo=lo, stride=16, funcs=CFUNCS) for cname in CT for lo in range(16)]
+    run.map(MOD, "w_unit", utasks)
     print(f"[C01] rate lattices: {len(rtasks)} tasks {time.time() - t0:.0f}s", file=sys.stderr, flush=True)
     # rate clause
     rates = {}
@@ -491,7 +537,8 @@ def run(run):
     run.rule = (
         "14 algorithms x {complex64, complex128}: full product S x S of a boundary lattice (all binades incl. subnormal ones, strided with a seeded phase, x 3 mantissa "
         "patterns; every constant of the expanded graph +-2 ULP; special values; +-inf), refined region boundaries (bisection of every select-signature change "
-        "along lattice rows/columns to adjacent floats, +-2 ULP), a regular coset of (re,im) bit patterns and the binade 2^-12..2^12 product lattice for the rate clause; "
+        "along lattice rows/columns to adjacent floats, +-2 ULP), a regular coset of (re,im) bit patterns and the binade 2^-12..2^12 product lattice for the rate clause; the unit-modulus lattice (|z| and |1+z| within 2 ULP of 1: "
+        "x on a binade x mantissa lattice, y = RN(sqrt(1-x^2)) +- 0..2 ULP, all signs and both orders); "
         "wide-precision filter + mpmath (two precisions) decision; non-trivial = points with finite non-zero real part of the result"
     )
     run.exhaustive = True
